@@ -4,6 +4,11 @@
 //   1 variant<int, tracked-cm, pair<int,int>>           3 alternatives, trivially copyable and not
 //   2 variant<tracked-cm, tracked-cm2, int, char>       4 alternatives
 //   3 variant<tracked-mo, int>                          move-only alternative (move paths only)
+//   4 variant<tracked-cm, int, tracked-cm>              REPEATED non-trivial alternative type: everything by index
+//   5 variant<int, int>                                 repeated trivial alternative type
+//   6 variant<string-like, string-like, char>           repeated non-trivial (std::string member) alternative type
+// With repeated types the type-based forms (emplace<T>, in_place_type, holds_alternative, get_if<T>, converting
+// construction/assignment) are ill-formed in both libraries and are left out; the index-based ones remain.
 // Twin worlds (vf_c07.hpp): the same operation text drives std::variant and etl::variant; traces are compared.
 #include "vf.hpp"
 #include "vf_contract.hpp"
@@ -45,6 +50,17 @@ using L2  = TL<int, TCM>;
 using L3  = TL<int, TCM, PairII>;
 using L4  = TL<TCM, TCM2, int, char>;
 using LMO = TL<TMO, int>;
+using LR1 = TL<TCM, int, TCM>;
+using LR2 = TL<int, int>;
+using LR3 = TL<StrLike, StrLike, char>;
+template <typename L>
+struct Unique;
+template <typename... Ts>
+struct Unique<TL<Ts...>> {
+    template <typename T>
+    static constexpr int count = (int(std::is_same_v<T, Ts>) + ...);
+    static constexpr bool value = ((count<Ts> == 1) && ...);
+};
 
 #if VF_CFG == 0
 using LX = L2;
@@ -64,17 +80,36 @@ using LW1 = L3;
 using LW2 = L2;
     #define VF_UNIT "C07_variant_4"
 constexpr char const* kName = "variant<tracked-cm,tracked-cm2,int,char>";
-#else
+#elif VF_CFG == 3
 using LX = LMO;
 using LW1 = L2;
 using LW2 = L3;
     #define VF_UNIT "C07_variant_mo"
 constexpr char const* kName = "variant<tracked-mo,int>";
+#elif VF_CFG == 4
+using LX = LR1;
+using LW1 = LR3;
+using LW2 = L2;
+    #define VF_UNIT "C07_variant_rep_tcm"
+constexpr char const* kName = "variant<tracked-cm,int,tracked-cm>";
+#elif VF_CFG == 5
+using LX = LR2;
+using LW1 = LR1;
+using LW2 = L2;
+    #define VF_UNIT "C07_variant_rep_int"
+constexpr char const* kName = "variant<int,int>";
+#else
+using LX = LR3;
+using LW1 = LR1;
+using LW2 = LR2;
+    #define VF_UNIT "C07_variant_rep_str"
+constexpr char const* kName = "variant<string-like,string-like,char>";
 #endif
 constexpr std::size_t N  = LX::size;
 constexpr std::size_t N1 = LW1::size;
 constexpr std::size_t N2 = LW2::size;
 constexpr bool kCopy     = AllCopy<LX>::value;
+constexpr bool kUnique   = Unique<LX>::value; // type-based forms exist only then
 template <std::size_t I>
 using Alt = typename At<I, LX>::type;
 
@@ -105,6 +140,7 @@ enum Op : unsigned {
     vVisit2,
     vVisit3,
     vGet,
+    vVisitIdx,
     kOpCount
 };
 constexpr OpInfo info(Op op)
@@ -135,6 +171,7 @@ constexpr OpInfo info(Op op)
     case vVisitVoid: return {"visit(void f,v)", 0};
     case vVisit2: return {"visit(f,v,w)", aZ};
     case vVisit3: return {"visit(f,v,w,u)", aZ | aY};
+    case vVisitIdx: return {"visit_with_index(f,v) [etl extension; model: index() + visit]", 0};
     case vGet: return {"get_if / holds_alternative / get of the active alternative", 0};
     default: return {"?", 0};
     }
@@ -159,12 +196,18 @@ constexpr bool applicable(Op op)
 {
     switch (op) {
     case vAssignAltLv:
+    case vAssignOwnAlt:
+    case vCtorAltLv: return kCopy && kUnique;
     case vAssignVarConst:
     case vSelfCopyAssign:
-    case vAssignOwnAlt:
-    case vCopyCtor:
-    case vCtorAltLv: return kCopy;
+    case vCopyCtor: return kCopy;
     case vSwapMember: return kHasMemberSwap;
+    case vEmplaceT:
+    case vAssignAltRv:
+    case vCtorAltRv:
+    case vCtorInPlaceType:
+    case vAssignForeign:
+    case vCtorForeign: return kUnique;
     case kOpCount: return false;
     default: return true;
     }
@@ -265,6 +308,10 @@ struct VarWorld {
         }
         with_index<N>(j, [&](auto I) {
             using T = Alt<I()>;
+            if constexpr (!kUnique) {
+                x = new V(NS::template ipi<I()>, Make<T>::arg(v)); // repeated types: only the index form exists
+                return;
+            } else
             switch (form) {
             case 1: x = new V(NS::template ipi<I()>, Make<T>::arg(v)); break;
             case 2: x = new V(NS::template ipt<T>, Make<T>::arg(v)); break;
@@ -301,8 +348,10 @@ struct VarWorld {
         static constexpr char const* ngt[4] = {"get_if<T0>!=null", "get_if<T1>!=null", "get_if<T2>!=null", "get_if<T3>!=null"};
         static constexpr char const* ngv[4] = {"*get_if<0>", "*get_if<1>", "*get_if<2>", "*get_if<3>"};
         [&]<std::size_t... Is>(std::index_sequence<Is...>) {
-            ((r.b(nh[Is], NS::template holds<Alt<Is>>(cv)), r.b(ng[Is], NS::template get_if<Is>(&cv) != nullptr),
-                 r.b(ngt[Is], NS::template get_if_t<Alt<Is>>(&v) != nullptr),
+            if constexpr (kUnique) {
+                ((r.b(nh[Is], NS::template holds<Alt<Is>>(cv)), r.b(ngt[Is], NS::template get_if_t<Alt<Is>>(&v) != nullptr)), ...);
+            }
+            ((r.b(ng[Is], NS::template get_if<Is>(&cv) != nullptr),
                  r.i(ngv[Is], NS::template get_if<Is>(&v) != nullptr ? enc(*NS::template get_if<Is>(&v)) : kAbsent)),
                 ...);
         }(std::make_index_sequence<N>{});
@@ -320,34 +369,42 @@ struct VarWorld {
             });
             break;
         case vEmplaceT:
-            with_index<N>(j, [&](auto I) {
-                auto& ref = v.template emplace<Alt<I()>>(Make<Alt<I()>>::arg(a.v));
-                r.b("emplace-returns-contained", &ref == NS::template get_if<I()>(&v));
-            });
+            if constexpr (kUnique) {
+                with_index<N>(j, [&](auto I) {
+                    auto& ref = v.template emplace<Alt<I()>>(Make<Alt<I()>>::arg(a.v));
+                    r.b("emplace-returns-contained", &ref == NS::template get_if<I()>(&v));
+                });
+            }
             break;
         case vAssignAltLv:
-            with_index<N>(j, [&](auto I) {
-                using T = Alt<I()>;
-                if constexpr (std::is_copy_constructible_v<T>) {
-                    T const t = Make<T>::of(a.v);
-                    V& ret    = (v = t);
-                    r.b("returns-self", &ret == &v);
-                    r.i("src.value", enc(t));
-                }
-            });
+            if constexpr (kUnique) {
+                with_index<N>(j, [&](auto I) {
+                    using T = Alt<I()>;
+                    if constexpr (std::is_copy_constructible_v<T>) {
+                        T const t = Make<T>::of(a.v);
+                        V& ret    = (v = t);
+                        r.b("returns-self", &ret == &v);
+                        r.i("src.value", enc(t));
+                    }
+                });
+            }
             break;
         case vAssignAltRv:
-            with_index<N>(j, [&](auto I) {
-                using T = Alt<I()>;
-                T t     = Make<T>::of(a.v);
-                v       = static_cast<T&&>(t);
-                r.i("src.value-after-move", enc(t));
-            });
+            if constexpr (kUnique) {
+                with_index<N>(j, [&](auto I) {
+                    using T = Alt<I()>;
+                    T t     = Make<T>::of(a.v);
+                    v       = static_cast<T&&>(t);
+                    r.i("src.value-after-move", enc(t));
+                });
+            }
             break;
         case vAssignForeign:
             with_index<ForeignList::size>((std::size_t)a.q, [&](auto I) {
                 using F = typename At<I(), ForeignList>::type;
-                if constexpr (kForeignAssignOk<F>) { v = (F)a.v; }
+                if constexpr (kUnique) { // (with repeated types the query itself is a hard error in tetl: probe unit 5)
+                    if constexpr (kForeignAssignOk<F>) { v = (F)a.v; }
+                }
             });
             break;
         case vAssignVarConst:
@@ -372,7 +429,7 @@ struct VarWorld {
             }
             break;
         case vAssignOwnAlt:
-            if constexpr (kCopy) {
+            if constexpr (kCopy && kUnique) {
                 with_index<N>(v.index(), [&](auto I) { v = *NS::template get_if<I()>(&v); });
             }
             break;
@@ -402,23 +459,27 @@ struct VarWorld {
             break;
         }
         case vCtorAltLv:
-            with_index<N>(j, [&](auto I) {
-                using T = Alt<I()>;
-                if constexpr (std::is_copy_constructible_v<T>) {
-                    T const t = Make<T>::of(a.v);
-                    V c(t);
-                    obs_var(r, "converted.index", "converted.value", c);
-                }
-            });
+            if constexpr (kUnique) {
+                with_index<N>(j, [&](auto I) {
+                    using T = Alt<I()>;
+                    if constexpr (std::is_copy_constructible_v<T>) {
+                        T const t = Make<T>::of(a.v);
+                        V c(t);
+                        obs_var(r, "converted.index", "converted.value", c);
+                    }
+                });
+            }
             break;
         case vCtorAltRv:
-            with_index<N>(j, [&](auto I) {
-                using T = Alt<I()>;
-                T t     = Make<T>::of(a.v);
-                V c(static_cast<T&&>(t));
-                obs_var(r, "converted.index", "converted.value", c);
-                r.i("src.value-after-move", enc(t));
-            });
+            if constexpr (kUnique) {
+                with_index<N>(j, [&](auto I) {
+                    using T = Alt<I()>;
+                    T t     = Make<T>::of(a.v);
+                    V c(static_cast<T&&>(t));
+                    obs_var(r, "converted.index", "converted.value", c);
+                    r.i("src.value-after-move", enc(t));
+                });
+            }
             break;
         case vCtorInPlaceIndex:
             with_index<N>(j, [&](auto I) {
@@ -427,10 +488,12 @@ struct VarWorld {
             });
             break;
         case vCtorInPlaceType:
-            with_index<N>(j, [&](auto I) {
-                V c(NS::template ipt<Alt<I()>>, Make<Alt<I()>>::arg(a.v));
-                obs_var(r, "constructed.index", "constructed.value", c);
-            });
+            if constexpr (kUnique) {
+                with_index<N>(j, [&](auto I) {
+                    V c(NS::template ipt<Alt<I()>>, Make<Alt<I()>>::arg(a.v));
+                    obs_var(r, "constructed.index", "constructed.value", c);
+                });
+            }
             break;
         case vCtorDefault: {
             V c;
@@ -440,9 +503,11 @@ struct VarWorld {
         case vCtorForeign:
             with_index<ForeignList::size>((std::size_t)a.q, [&](auto I) {
                 using F = typename At<I(), ForeignList>::type;
-                if constexpr (kForeignCtorOk<F>) {
-                    V c((F)a.v);
-                    obs_var(r, "converted.index", "converted.value", c);
+                if constexpr (kUnique) {
+                    if constexpr (kForeignCtorOk<F>) {
+                        V c((F)a.v);
+                        obs_var(r, "converted.index", "converted.value", c);
+                    }
                 }
             });
             break;
@@ -503,10 +568,32 @@ struct VarWorld {
                 r.b("get<active>(rvalue)-is-contained", &rr == NS::template get_if<I()>(&v));
                 r.i("get<active>(rvalue)-category", category<decltype(NS::template get_active<I()>(static_cast<V&&>(v)))>());
                 r.b("get_if<I>(const*)-is-contained", NS::template get_if<I()>(&cv) == NS::template get_if<I()>(&v));
-                r.b("get_if<T>(const*)-is-contained", NS::template get_if_t<Alt<I()>>(&cv) == NS::template get_if<I()>(&v));
+                if constexpr (kUnique) { r.b("get_if<T>(const*)-is-contained", NS::template get_if_t<Alt<I()>>(&cv) == NS::template get_if<I()>(&v)); }
                 r.b("get_if<I>(nullptr)", NS::template get_if<I()>(static_cast<V*>(nullptr)) == nullptr);
             });
             break;
+        case vVisitIdx: {
+            // etl::visit_with_index hands the visitor the active index together with the value; the std side is the
+            // definition: index() and the value std::visit delivers
+            long long idx = -1, val = kAbsent;
+            int calls = 0;
+            V const& cv = v;
+            if constexpr (NS::is_etl) {
+                etl::visit_with_index([&](auto p) {
+                    ++calls;
+                    idx = (long long)decltype(p)::index.value;
+                    val = enc(p.value());
+                }, cv);
+            } else {
+                ++calls;
+                idx = (long long)cv.index();
+                val = active_value(cv);
+            }
+            r.i("visit_with_index: calls", calls);
+            r.i("visit_with_index: index", idx);
+            r.i("visit_with_index: value", val);
+            break;
+        }
         default: break;
         }
     }
@@ -523,6 +610,23 @@ constexpr Table make_table()
         if (applicable((Op)k)) { t.ops[t.n++] = (Op)k; }
     }
     return t;
+}
+
+// (a template so that nothing in the not-taken branch is instantiated: with repeated alternative types the
+// constructibility query itself is a hard error inside tetl, see probe unit 5)
+template <typename FL, bool U>
+std::string foreign_rejected()
+{
+    std::string r;
+    if constexpr (!U) {
+        r = " (repeated alternative types: emplace<T>, in_place_type, holds_alternative, get_if<T>, converting construction/assignment are ill-formed in both libraries)";
+    } else {
+        [&]<std::size_t... Is>(std::index_sequence<Is...>) {
+            static constexpr char const* fnm[4] = {"short", "signed char", "bool", "unsigned char"};
+            ((kForeignCtorOk<typename At<Is, FL>::type> && kForeignAssignOk<typename At<Is, FL>::type> ? (void)0 : (void)(r += std::string(" ") + fnm[Is])), ...);
+        }(std::make_index_sequence<FL::size>{});
+    }
+    return r;
 }
 
 struct VarSubject {
@@ -544,10 +648,7 @@ struct VarSubject {
             std::string r;
             if (!kHasMemberSwap) { r += "member swap(); "; }
             r += "get<I>/get<T> (etl: unchecked_get / operator[] compared instead); valueless_by_exception; non-alternative argument types skipped because one library rejects them:";
-            [&]<std::size_t... Is>(std::index_sequence<Is...>) {
-                static constexpr char const* fnm[4] = {"short", "signed char", "bool", "unsigned char"};
-                ((kForeignCtorOk<typename At<Is, ForeignList>::type> && kForeignAssignOk<typename At<Is, ForeignList>::type> ? (void)0 : (void)(r += std::string(" ") + fnm[Is])), ...);
-            }(std::make_index_sequence<ForeignList::size>{});
+            r += foreign_rejected<ForeignList, kUnique>();
             return r;
         }();
         return str.c_str();
@@ -563,7 +664,7 @@ struct VarSubject {
 
     void init(vf::Chooser& ch, unsigned nv)
     {
-        int form      = (int)ch.pick(5);
+        int form      = (int)ch.pick(kUnique ? 5 : 2);
         std::size_t j = form ? ch.pick((unsigned)N) : 0;
         int v         = form ? (int)ch.pick(nv) : 0;
         static constexpr char const* fn[5] = {"ctor()", "ctor(in_place_index<I>,args)", "ctor(in_place_type<T>,args)", "ctor(T&&) converting", "ctor(T const&) converting"};
@@ -648,7 +749,7 @@ void run_case(vf::Case& c)
     if (c.enumerated) {
         bool th = c.tier == vf::Tier::thorough;
         if (c.index == 0) { check_traits(); }
-        enumerate_first_op<VarSubject>((unsigned)c.index, 2, 3);
+        enumerate_first_op<VarSubject>((unsigned)c.index, kUnique ? 2 : 3, 3); // the repeated-type lists have few operations: chains of 3
         if (th) { enumerate_first_op<VarSubject>((unsigned)c.index, 3, 2); } // deeper, two payload values
     } else {
         random_history<VarSubject>(c.rng, 50, 3);
